@@ -3,7 +3,10 @@ one tree entry per branch; identifiers are the rows of the matched vertices; sum
 import os
 from lib import vf
 
-RULE = ("one case = geometry file (plain/gzip, 0-40 rows, linestrings of 0-6 grid points, optionally an unparsable row), "
+RULE = ("one case = geometry file (plain/gzip, 0-40 rows, linestrings of 0-6 points, optionally an unparsable row; coordinates "
+        "either on the k/8 grid or f32 values that need more than six decimals - k/2^m with m <= 20 and |value| < 8, 1e-7, "
+        "2^-24, 0.1f32, -0.30000001 ... - written with shortest round-trip text and compared by f32 bit pattern after "
+        "re-parsing geo_json / wkt / wkb), "
         "identifier file (raw text: blank / whitespace-only rows at the start, middle, end, rows with surrounding spaces, "
         "duplicates, LF or CRLF, terminated or not, plain/gzip; the model splits the text like BufRead::lines, the "
         "specification says row i = vertex i), request, 0-3 routes of 0-30 edges and 0-3 trees of 0-60 branches (or a failed search), run "
@@ -17,7 +20,7 @@ RULE = ("one case = geometry file (plain/gzip, 0-40 rows, linestrings of 0-6 gri
         "repeated edges, a missing geometry at every position, degenerate linestrings, 0/2/3 routes and trees, shared "
         "tree edges, identifier positions, identifier files with blank rows queried at and after the blank row, ill-typed requests, unparsable rows, every plugin order). non-trivial = some "
         "route has >= 2 edges with distinct stored geometries, or a tree has >= 2 branches, or an edge has no stored "
-        "geometry / a route is empty / a file row does not parse / the origin or destination index lies at or after a "
+        "geometry / a route is empty / a file row does not parse / an ordinate needs more than six decimals / the origin or destination index lies at or after a "
         "blank identifier row that precedes an identifier; distinct by case")
 
 
@@ -46,7 +49,7 @@ def run(chk):
         chk.coverage["streams"]["corpus"] = {"cases": rc.stats.get("cases", 0),
                                              "rule": "corpus/C20/witnesses.json replayed (same comparison as the main stream)"}
         vf.compare(chk, rc, classify=classify, binpath=binp, stream_label="corpus")
-    n = 650 if chk.tier == "quick" else 6000
+    n = 680 if chk.tier == "quick" else 6000
     extra = [] if chk.tier == "quick" else ["--thorough"]
     r = vf.run_stream(binp, "output", n, chk.seed, os.path.join(chk.outdir, "output"), extra=extra, replay=chk.replay)
     chk.add_stream(r, RULE)
